@@ -26,6 +26,7 @@ let channels : (string * ((string * string) list -> string)) list = [
   ("xform", Chan_xform.run);
   ("pmf", Chan_pmf.run);
   ("lab", Chan_lab.run);
+  ("prank", Chan_prank.run);
 ]
 
 let () =
